@@ -13,7 +13,7 @@ N_HIST = {'quick': 30, 'thorough': 500}       # histories per batch and configur
 N_SCHED = {'quick': 60, 'thorough': 900}      # schedules per batch and threaded configuration
 FLOORS = {
     'quick': {'distinct_nontrivial': 3000, 'history-calls-judged': 8000, 'histories': 1500, 'fingerprints-compared': 8000,
-              'schedules': 3000, 'distinct-interleavings': 2500, 'schedules-with-overlap-in-first-use-window': 800,
+              'schedules': 2500, 'schedules:broad': 300, 'distinct-interleavings': 2200, 'schedules-with-overlap-in-first-use-window': 800,
               'thread-results-judged': 8000, 'feature:after-failed-call': 1500, 'feature:after-abandoned-generator': 1000,
               'feature:indenter-after-DedentError': 50, 'feature:indenter-after-abandoned-block': 50,
               'feature:other-instance-built-between': 300, 'feature:op:scan': 500, 'feature:op:interactive': 500, 'feature:op:lex': 800},
@@ -251,7 +251,10 @@ _SCHED = None
 LAZY_SEEN = set()
 
 
-def get_sched():
+def get_sched(broad=False):
+    """targeted: statement boundaries of the functions that touch lazily built shared state (and the call paths into them);
+    broad: every function of the runtime modules of lark (finds shared state the targeted list does not know about).
+    One mode per worker process (the scheduler owns one sys.monitoring tool id)."""
     global _SCHED
     if _SCHED is None:
         import lark.lexer as lx, lark.parser_frontends as pf, lark.lark as lk, lark.utils as ut
@@ -260,11 +263,19 @@ def get_sched():
         for o in (lx.BasicLexer.scanner, lx.BasicLexer.search_scanner, lx.BasicLexer._build_scanner, lx.PatternRE, lx.PatternStr, lx.Pattern):
             watch += sched.code_objects_of(o)
         codes = list(watch)
-        for o in (lx.BasicLexer, lx.ContextualLexer, lx.LexerThread, lx.LexerState, lx.Scanner, lx._create_unless, lx.UnlessCallback, lx.CallChain,
-                  pf.ParsingFrontend, pf.PostLexConnector, lk.Lark.parse, lk.Lark.lex, lk.Lark.scan, lk.Lark.parse_interactive,
-                  lalr_parser._Parser, lalr_parser.LALR_Parser):
-            codes += sched.code_objects_of(o)
+        if broad:
+            import lark.parse_tree_builder as ptb, lark.tree as tr, lark.common as cm, lark.grammar as gr, lark.visitors as vs, lark.indenter as ind
+            from lark.parsers import earley, xearley, earley_forest, earley_common
+            for m in (lx, pf, lk, ut, lalr_parser, lalr_parser_state, lalr_interactive_parser, earley, xearley, earley_forest, earley_common,
+                      ptb, tr, cm, gr, vs, ind):
+                codes += sched.code_objects_of(m)
+        else:
+            for o in (lx.BasicLexer, lx.ContextualLexer, lx.LexerThread, lx.LexerState, lx.Scanner, lx._create_unless, lx.UnlessCallback, lx.CallChain,
+                      pf.ParsingFrontend, pf.PostLexConnector, lk.Lark.parse, lk.Lark.lex, lk.Lark.scan, lk.Lark.parse_interactive,
+                      lalr_parser._Parser, lalr_parser.LALR_Parser):
+                codes += sched.code_objects_of(o)
         _SCHED = sched.Scheduler(codes, watch)
+        _SCHED.broad = broad
         _SCHED.install()
     return _SCHED
 
@@ -273,18 +284,19 @@ def thread_op(l, op):
     return lambda: do_op(l, op)
 
 
-def run_schedule(ctx, name, tops, seed, p, seq_cache, seen_traces):
+def run_schedule(ctx, name, tops, seed, p, seq_cache, seen_traces, broad=False):
     c = CONFIGS[name]
-    S = get_sched()
+    S = get_sched(broad)
     l = make(name)
     fns = [(lambda ops=ops: [do_op(l, op) for op in ops]) for ops in tops]
-    case = {'kind': 'threads', 'config': name, 'thread_ops': tops, 'schedule_seed': seed, 'p_switch': p}
+    case = {'kind': 'threads', 'config': name, 'thread_ops': tops, 'schedule_seed': seed, 'p_switch': p, 'broad': broad}
     try:
         r = S.run(fns, seed, p)
     except sched.Deadlock:
         ctx.inconc('scheduler watchdog fired (harness deadlock)', case)
         return
     ctx.count('schedules')
+    ctx.count('schedules:broad' if broad else 'schedules:targeted')
     if r['trace_digest'] not in seen_traces:
         seen_traces.add(r['trace_digest'])
         ctx.count('distinct-interleavings')
@@ -340,14 +352,15 @@ def run_batch(ctx):
     seq = {}
     seen = set()
     base = ctx.seed * 1000003 + ctx.batch * 10007
-    for i in range(N_SCHED[ctx.tier]):
+    broad = ctx.batch % 4 == 3          # every fourth worker instruments all runtime modules of lark
+    for i in range(N_SCHED[ctx.tier] // (3 if broad else 1)):
         if not ctx.time_left():
             ctx.count('stopped-on-time-budget')
             break
         for name in THREAD_CONFIGS:
             tops = gen_thread_ops(rng, CONFIGS[name])
-            p = rng.choice([0.05, 0.15, 0.3, 0.5])
-            run_schedule(ctx, name, tops, base + i * 31 + hash(name) % 7 if False else base + i * 31 + THREAD_CONFIGS.index(name), p, seq, seen)
+            p = rng.choice([0.003, 0.01, 0.03]) if broad else rng.choice([0.05, 0.15, 0.3, 0.5])
+            run_schedule(ctx, name, tops, base + i * 31 + THREAD_CONFIGS.index(name), p, seq, seen, broad)
     ctx.sample({'kind': 'threads', 'config': name, 'thread_ops': tops, 'p_switch': p})
 
 
@@ -355,4 +368,4 @@ def replay(ctx, case):
     if case['kind'] == 'history':
         run_history(ctx, case['config'], case['ops'], {}, Fingerprinter(skip_attr))
     else:
-        run_schedule(ctx, case['config'], case['thread_ops'], case['schedule_seed'], case['p_switch'], {}, set())
+        run_schedule(ctx, case['config'], case['thread_ops'], case['schedule_seed'], case['p_switch'], {}, set(), case.get('broad', False))
